@@ -85,7 +85,12 @@ def rule_r1(rep, repo):
         if len(cur.orelse) == 1 and isinstance(cur.orelse[0], ast.If):
             cur = cur.orelse[0]
         else:
-            branches.append((None, cur.orelse))
+            tail = cur.orelse
+            if not tail and all(b and isinstance(b[-1], (ast.Return, ast.Raise)) for _, b in branches):
+                # `if ...: return ...` followed by the remaining case as straight-line code
+                body_ = strip_docstring(f.node.body)
+                tail = body_[body_.index(chain) + 1:]
+            branches.append((None, tail))
             break
     styles = [branch_style(b) for _, b in branches]
     # literal lists bound to local names before the dispatch (used inside the guards)
